@@ -28,8 +28,10 @@ import (
 // Allow / AllowN / Check on a limiter whose client talks to the fake server, which runs the limiter's
 // real Lua script and expires its keys on the bubble's clock. The fake's log gives the serial order
 // of the script executions; a reference model of the documented semantics (a window starts with the
-// first request after the previous window ended and lasts Window; every request adds its n, admitted
-// or not) is run over that order and compared with what each caller got.
+// first request after the previous window ended and lasts the window of that request - the one of its
+// per-call WithCustomRateLimit option, else the limiter's -; every request adds its n, admitted or
+// not; a request is judged against its own limit) is run over that order and compared with what each
+// caller got.
 // ---------------------------------------------------------------------------------------------
 
 type c38Call struct {
@@ -39,12 +41,30 @@ type c38Call struct {
 	N    int64  `json:"n"`
 }
 
+type c38Opt struct {
+	Limit    int `json:"limit"`
+	WindowMs int `json:"window_ms"`
+}
+
 type c38Plan struct {
-	Limit    int         `json:"limit"`
-	WindowMs int         `json:"window_ms"`
-	Prefix   string      `json:"prefix"`
-	IDs      []string    `json:"ids"`
-	Callers  [][]c38Call `json:"callers"`
+	Limit    int      `json:"limit"`
+	WindowMs int      `json:"window_ms"`
+	Prefix   string   `json:"prefix"`
+	IDs      []string `json:"ids"`
+	// per-call WithCustomRateLimit: Options[0] is the limiter's default (no option passed), the others
+	// are passed as option; OptOf[identifier][n mod 3] selects one, so that calls that agree in
+	// (identifier, n) carry the same option and stay interchangeable for the oracle
+	Options []c38Opt    `json:"options"`
+	OptOf   [][3]int    `json:"opt_of"`
+	Callers [][]c38Call `json:"callers"`
+}
+
+// opt returns the index of the option a call with these arguments uses (0 = none).
+func (p c38Plan) opt(id int, n int64) int {
+	if n < 0 || len(p.OptOf) == 0 {
+		return 0
+	}
+	return p.OptOf[id][n%3]
 }
 
 type c38Obs struct {
@@ -72,8 +92,47 @@ func genC38Plan(rt *rapid.T) c38Plan {
 	p.Prefix = rapid.SampledFrom([]string{"", "", "rl", "app:limits"}).Draw(rt, "prefix")
 	p.IDs = [][]string{{"alice"}, {"alice", "bob"}, {"user 1", "{tag}"}, {"", "x\r\ny"}, {"alice"}}[rapid.IntRange(0, 4).Draw(rt, "ids")]
 	w := p.WindowMs
+	p.Options = []c38Opt{{p.Limit, p.WindowMs}}
+	maxLimit := p.Limit
+	nCustom := rapid.SampledFrom([]int{0, 1, 1, 2, 2}).Draw(rt, "customOptions")
+	for i := 0; i < nCustom; i++ {
+		o := c38Opt{
+			Limit:    rapid.OneOf(rapid.IntRange(1, 20), rapid.SampledFrom([]int{1, p.Limit, p.Limit + 5, max(1, p.Limit/2)})).Draw(rt, "customLimit"),
+			WindowMs: rapid.SampledFrom([]int{200, 500, 700, 999, 1000, 1500, 2500, 4000, 7000, 3600000, w / 2, 2 * w, w + 1}).Draw(rt, "customWindowMs"),
+		}
+		if o.WindowMs == w && o.Limit == p.Limit {
+			o.WindowMs = w + 300
+		}
+		p.Options = append(p.Options, o)
+		maxLimit = max(maxLimit, o.Limit)
+	}
+	p.OptOf = make([][3]int, len(p.IDs))
+	if nCustom > 0 {
+		for id := range p.IDs {
+			if rapid.IntRange(0, 4).Draw(rt, "mixedOptions") == 2 {
+				// one identifier judged under several (limit, window) pairs
+				for r := 0; r < 3; r++ {
+					p.OptOf[id][r] = rapid.IntRange(0, nCustom).Draw(rt, "optOf")
+				}
+			} else {
+				// the usual use: an identifier always comes with the same option (or always with none)
+				o := rapid.SampledFrom([]int{0, 1, 1, nCustom, nCustom}).Draw(rt, "optOfId")
+				p.OptOf[id] = [3]int{o, o, o}
+			}
+		}
+	}
+	ends := []int{0, 0, 1, w / 2, 3 * w}
+	horizon := 3 * w
+	for _, o := range p.Options {
+		if ow := o.WindowMs; ow <= 10000 {
+			ends = append(ends, ow-1, ow, ow+1, ow+2, 2*ow, 2*ow+1, 2*ow+2, 2*ow+3)
+			horizon = max(horizon, 3*ow)
+		}
+	}
 	instants := rapid.OneOf(
-		rapid.SampledFrom([]int{0, 0, 1, w - 1, w, w + 1, w + 2, 2 * w, 2*w + 1, 2*w + 2, 2*w + 3, w / 2, 3 * w}),
+		rapid.SampledFrom(ends),
+		rapid.SampledFrom(ends),
+		rapid.IntRange(0, horizon),
 		rapid.IntRange(0, 3*w),
 		rapid.IntRange(0, 20),
 	)
@@ -95,7 +154,7 @@ func genC38Plan(rt *rapid.T) c38Plan {
 				cl.Kind, cl.N = "check", 0
 			default:
 				cl.Kind = "allown"
-				cl.N = int64(rapid.OneOf(rapid.IntRange(0, p.Limit+3), rapid.IntRange(1, 3), rapid.SampledFrom([]int{-1, p.Limit, p.Limit})).Draw(rt, "n"))
+				cl.N = int64(rapid.OneOf(rapid.IntRange(0, maxLimit+3), rapid.IntRange(1, 3), rapid.SampledFrom([]int{p.Limit, -1, p.Limit})).Draw(rt, "n"))
 			}
 			calls[i] = cl
 		}
@@ -163,13 +222,17 @@ func c38Run(t *testing.T, plan c38Plan) (res bubble.Result, ctorErr string, obs 
 					t0 := time.Now()
 					var r rueidislimiter.Result
 					var err error
+					var opts []rueidislimiter.RateLimitOption
+					if oi := plan.opt(cl.ID, cl.N); oi > 0 {
+						opts = append(opts, rueidislimiter.WithCustomRateLimit(plan.Options[oi].Limit, time.Duration(plan.Options[oi].WindowMs)*time.Millisecond))
+					}
 					switch cl.Kind {
 					case "allow":
-						r, err = lim.Allow(ctx, plan.IDs[cl.ID])
+						r, err = lim.Allow(ctx, plan.IDs[cl.ID], opts...)
 					case "check":
-						r, err = lim.Check(ctx, plan.IDs[cl.ID])
+						r, err = lim.Check(ctx, plan.IDs[cl.ID], opts...)
 					default:
-						r, err = lim.AllowN(ctx, plan.IDs[cl.ID], cl.N)
+						r, err = lim.AllowN(ctx, plan.IDs[cl.ID], cl.N, opts...)
 					}
 					o.Took = time.Since(t0)
 					o.Res, o.Err, o.Neg, o.Done = r, errText(err), errors.Is(err, rueidislimiter.ErrInvalidTokens), true
@@ -239,7 +302,7 @@ func c38Check(c *stat.Collector, rt stat.Fataler, plan c38Plan, res bubble.Resul
 		}
 		sort.Strings(classes)
 	}()
-	cfg := fmt.Sprintf("limit=%d window=%dms", plan.Limit, plan.WindowMs)
+	cfg := fmt.Sprintf("limit=%d window=%dms options=%v by identifier and n mod 3: %v", plan.Limit, plan.WindowMs, plan.Options[1:], plan.OptOf)
 	if res.Panic != nil {
 		c.Fail(rt, "C38.no-panic", res.String(), plan)
 	}
@@ -272,7 +335,8 @@ func c38Check(c *stat.Collector, rt stat.Fataler, plan c38Plan, res bubble.Resul
 	}
 	// what the callers got, grouped by (identifier, n, instant): callers of one group are interchangeable
 	got = map[c38Group][]rueidislimiter.Result{}
-	admitted := map[string]int64{} // (identifier, ResetAtMs) -> admitted units
+	admitted := map[string]int64{}   // (identifier, ResetAtMs) -> admitted units
+	admitLimit := map[string]int64{} // the largest limit any of those admitted calls was judged against
 	sameInstant := false
 	seenAt := map[string]int{}
 	for ci, calls := range plan.Callers {
@@ -298,7 +362,22 @@ func c38Check(c *stat.Collector, rt stat.Fataler, plan c38Plan, res bubble.Resul
 			g := c38Group{cl.ID, cl.N, o.NowMs}
 			got[g] = append(got[g], o.Res)
 			if cl.N > 0 && o.Res.Allowed {
-				admitted[fmt.Sprintf("%d@%d", cl.ID, o.Res.ResetAtMs)] += cl.N
+				b := fmt.Sprintf("%d@%d", cl.ID, o.Res.ResetAtMs)
+				admitted[b] += cl.N
+				admitLimit[b] = max(admitLimit[b], int64(plan.Options[plan.opt(cl.ID, cl.N)].Limit))
+			}
+			if oi := plan.opt(cl.ID, cl.N); oi > 0 {
+				cls["call-with-custom-option"] = true
+				if ow := plan.Options[oi].WindowMs; ow < plan.WindowMs {
+					cls["custom-window-shorter-than-default"] = true
+				} else if ow > plan.WindowMs {
+					cls["custom-window-longer-than-default"] = true
+				}
+				if ol := plan.Options[oi].Limit; ol < plan.Limit {
+					cls["custom-limit-lower-than-default"] = true
+				} else if ol > plan.Limit {
+					cls["custom-limit-higher-than-default"] = true
+				}
 			}
 			k := fmt.Sprintf("%d@%d", cl.ID, o.NowMs)
 			if prev, ok := seenAt[k]; ok && prev != ci {
@@ -309,8 +388,8 @@ func c38Check(c *stat.Collector, rt stat.Fataler, plan c38Plan, res bubble.Resul
 	}
 	// safety clause, straight from the callers' results
 	for k, units := range admitted {
-		if units > int64(plan.Limit) {
-			c.Fail(rt, "C38.admitted-within-limit", fmt.Sprintf("%s: identifier#window %s admitted %d units in total (calls with n>0 that report Allowed)", cfg, k, units), plan)
+		if units > admitLimit[k] {
+			c.Fail(rt, "C38.admitted-within-limit", fmt.Sprintf("%s: identifier#window %s admitted %d units in total (calls with n>0 that report Allowed), the largest limit among those calls is %d", cfg, k, units, admitLimit[k]), plan)
 		}
 	}
 	// reference model over the server's serial order
@@ -338,20 +417,28 @@ func c38Check(c *stat.Collector, rt stat.Fataler, plan c38Plan, res bubble.Resul
 			// it belongs to; the model follows the limiter's choice and checks it for consistency afterwards
 			opens = x.Expires != s.expires
 		}
+		// the call's own (limit, window): the per-call option if it carries one, else the limiter's
+		eff := plan.Options[plan.opt(id, x.N)]
 		if opens {
-			s.expires, s.counter = x.NowMs+int64(plan.WindowMs), 0
+			s.expires, s.counter = x.NowMs+int64(eff.WindowMs), 0
 			if x.N == 0 {
 				checkOpensWindow = true
+			}
+			if plan.opt(id, x.N) > 0 {
+				cls["window-opened-by-call-with-custom-option"] = true
+				if eff.WindowMs != plan.WindowMs {
+					cls["window-opened-with-custom-window-length"] = true
+				}
 			}
 		}
 		s.counter += x.N
 		e := c38Expect{judgeable: x.N > 0}
-		e.res.Remaining = int64(plan.Limit) - s.counter
+		e.res.Remaining = int64(eff.Limit) - s.counter
 		if e.res.Remaining < 0 {
 			e.res.Remaining = 0
 		}
 		e.res.ResetAtMs = s.expires
-		e.res.Allowed = s.counter <= int64(plan.Limit)
+		e.res.Allowed = s.counter <= int64(eff.Limit)
 		g := c38Group{id, x.N, x.NowMs}
 		want[g] = append(want[g], e)
 		if x.N > 0 {
@@ -433,11 +520,16 @@ func c38Check(c *stat.Collector, rt stat.Fataler, plan c38Plan, res bubble.Resul
 	if len(st) > 1 {
 		cls["two-identifiers"] = true
 	}
+	for _, of := range plan.OptOf {
+		if of[0] != of[1] || of[1] != of[2] {
+			cls["one-identifier-under-several-options"] = true
+		}
+	}
 	return (sameInstant || nearBoundary) && len(execs) > 1, nil, false, checkOpensWindow, got, order
 }
 
 func TestVerif_C38_Limiter(t *testing.T) {
-	c := stat.For("C38", "limiter").Rule("1-6 concurrent callers x 1-8 calls from {Allow, AllowN(n in -1..limit+3), Check} on 1-2 identifiers of one limiter (limit 1-20, window 1-5 s, default and custom key prefix) in a synctest bubble; call instants drawn from {0, 1, W-1, W, W+1, W+2, 2W..2W+3, W/2, 3W} and uniformly in [0,3W] ms so that callers coincide and calls fall exactly on / 1 ms around window ends; the fake server runs the limiter's real Lua script and expires its keys on the virtual clock; oracle: (1) per (identifier, ResetAtMs) the n of all calls with n>0 reporting Allowed sum to <= limit; (2) a reference model (window opens at the first request after the previous one ended and lasts Window, every request adds n, Remaining = max(limit-sum,0), Allowed iff sum<=limit for n>0, Check adds 0) run over the serial order of script executions in the server log equals what the callers got, as multisets per (identifier, n, instant); (3) metamorphic: the same plan without its Checks, when no Check opened a window and the server executed the remaining calls in the same order, gives the same results; negative n => ErrInvalidTokens and no execution; non-trivial = two callers hit one identifier at the same instant or a call falls within 1 ms of a window end")
+	c := stat.For("C38", "limiter").Rule("1-6 concurrent callers x 1-8 calls from {Allow, AllowN(n in -1..limit+3), Check} on 1-2 identifiers of one limiter (limit 1-20, window 1-5 s, default and custom key prefix); 80% of the plans define 1-2 per-call WithCustomRateLimit options (limit 1-25, window 200 ms .. 1 h, shorter and longer than the default) that an identifier uses always (usual) or depending on n mod 3 (mixed) in a synctest bubble; call instants drawn from {0, 1, W-1, W, W+1, W+2, 2W..2W+3, W/2, 3W} and uniformly in [0,3W] ms so that callers coincide and calls fall exactly on / 1 ms around window ends; the fake server runs the limiter's real Lua script and expires its keys on the virtual clock; oracle: (1) per (identifier, ResetAtMs) the n of all calls with n>0 reporting Allowed sum to <= the largest limit among those calls; (2) a reference model (window opens at the first request after the previous one ended and lasts the window of the call that opens it - its per-call option or the default -, every request adds n, Remaining = max(limit-sum,0) and Allowed iff sum<=limit for n>0 with the limit of the call itself, Check adds 0) run over the serial order of script executions in the server log equals what the callers got, as multisets per (identifier, n, instant); (3) metamorphic: the same plan without its Checks, when no Check opened a window and the server executed the remaining calls in the same order, gives the same results; negative n => ErrInvalidTokens and no execution; non-trivial = two callers hit one identifier at the same instant or a call falls within 1 ms of a window end")
 	defer c.Flush()
 	rapid.Check(t, func(rt *rapid.T) {
 		plan := genC38Plan(rt)
